@@ -157,6 +157,24 @@ def run(M, rep, tier, only=None):
                   ("delete_all never unlinks" if not ndel else "delete_all does not walk below its own group"),
                   site=f.file + ":%d" % f.node.lineno, detail=describe_path(bad[0]) if bad else None)
 
+        # every matching child is unlinked, not only the first one: after an unlink in iteration 0 the walk over the
+        # children must go on (two unrolled iterations)
+        rcfg2 = layer_config(M, unroll=2)
+        rcfg2.compose = False
+        cont = False
+        for p in explore(rcfg2, f, "H5Group", None, 8000):
+            dels = [e for e in p.events if e.kind in ("raw", "layer") and e.op.split(".")[-1] in ("__delitem__", "delete", "pop")]
+            if not dels:
+                continue
+            first = dels[0]
+            later_iter = [e for e in p.events if e.idx > first.idx and e.kind == "layer" and e.op.endswith("get_attr")
+                          and e.key is not None and e.key.t == ("const", "entity_id")]
+            if later_iter:
+                cont = True
+        rep.check(R4, "H5Group.delete_all/all matches", cont,
+                  "after unlinking one matching child delete_all stops looking at the remaining children of that group: "
+                  "further links to deleted entities in the same list survive", site=f.file + ":%d" % f.node.lineno)
+
     # ---- R5
     for cn in ("Container", "SectionContainer", "SourceContainer", "LinkContainer"):
         f = ctx.member(cn, "__delitem__")
